@@ -80,6 +80,7 @@ def run(ctx, rep):
     panic_is_not_success(ctx, rep)
     shared_options_share_their_defaults(ctx, rep)
     paths_are_not_respelled(ctx, rep)
+    the_compiled_file_is_written(ctx, rep)
     function_table_writers_agree(F, rep)
     rep.assume("a character not compared against any constant by the reader behaves like the class representative 'x' (the reader touches "
                "characters only through comparisons with constants and char::is_whitespace)")
@@ -327,6 +328,26 @@ def paths_are_not_respelled(ctx, rep, rule="C04.path-spelling"):
                        "`compile` + `execute` looks for `a/b.mmm` and fails", c.span, fn=g.path, key="%s|%s" % (rule, mir.short(g.path)))
     rep.floor(rule + " text replacements looked at", n, 5)
     rep.ob(rule, "every str::replace of the four crates was looked at for the pattern ('\\', \"/\")", "ok", "%d calls" % n, None, key=rule + "|census")
+
+
+def the_compiled_file_is_written(ctx, rep, rule="C04.output-written"):
+    """`execute X.mmm` runs what `compile X.ms` wrote; `run X.ms` runs what it has just compiled in memory.  The two are the same program only if
+    compile writes the file it was asked for, every time: perform_file_io_out (the only writer of .mmm files) has no successful return that does not
+    pass through the flush of what was written - a "the output looks newer than the source, nothing to do"
+    shortcut leaves whatever is on disk (an older revision restored with its old timestamp, the text form of the same source) to be executed."""
+    F = ctx.facts("default", ["compiler"])
+    g = [f for f in F.crates["compiler"].fns if f.path.endswith("::perform_file_io_out") and f.kind != "Closure"]
+    if len(g) != 1:
+        raise AnchorMissing("compiler::perform_file_io_out")
+    g = g[0]
+    flushes = {c.bb for c in g.calls() if mir.short(c.callee()).endswith(("Write>::flush", "Write::flush", "File::sync_all", "Write>::write_all", "Write::write_all"))}
+    okr = set(rules.ok_return_blocks(g))
+    if not flushes or not okr:
+        raise AnchorMissing("the flush / Ok return of perform_file_io_out")
+    free = g.reachable(0, removed_blocks=flushes) & okr
+    rep.ob(rule, "perform_file_io_out has no successful return that has not written (and flushed) the output", "violated" if free else "ok",
+           ("an Ok return is reachable from the entry without the write: `compile` can leave the file on disk as it was, and `execute` runs that, "
+            "while `run` runs the current source") if free else "%d flush / write sites, each Ok return behind one" % len(flushes), g.span, fn=g.path, key=rule)
 
 
 def panic_is_not_success(ctx, rep):
